@@ -27,6 +27,9 @@ CHECKS = {
     "C08": ("reference-model monitor over four rewriting routes (naive eager, normalize, unfold, apply_optimizer) + identity check of normal forms + brute-force einsum oracle",
             "Sum-product programs are generated inside the carrier of each of the seven semirings, with operands that do or do not mention each reduced variable and optional free real parameters; every route that completes must equal the reference value on the whole input space; normalising twice must return the identical object; enumerated einsum equations are compared with brute force for the three numpy backends. Exploration.",
             "trusted: fv/refsem.py; carrier-restricted generators", "DESIGN.md §6 C08"),
+    "C09": ("brute-force unrolled joint table as reference model for every public plated sum-product entry point; error-behaviour monitor for pedantic mode",
+            "Random and exhaustively enumerated tiny plated factor graphs are eliminated through sum_product, one- and two-call partial_sum_product, the modified/dynamic variants with empty Markov steps, plated einsum, pedantic mode and integer plate scales, and compared at every kept point with the table obtained by replicating variables per plate index. Exploration.",
+            "trusted: the unrolling oracle in fv/checks/c09.py; two-call splits restricted to those that denote the same unrolled model; kept plates are not listed in plate_to_step", "DESIGN.md §6 C09"),
     "C15": ("runtime oracle over op-table axioms on edge grids; scalar/0-d/array differential; NaN monitor on safe ops",
             "Every published table entry and every catalogue op is executed on an edge-value grid crossed with random values, shapes and operand orders; numpy/math/scipy arithmetic is the independent oracle. Exploration: held on the grid that was run, nothing beyond.",
             "trusted: numpy/scipy/math arithmetic; carriers as stated in the property (non-negative for max/min with mul, booleans for and/or)", "DESIGN.md §6 C15"),
